@@ -1,6 +1,6 @@
 (** C15 — the boolean hypotheses the correspondence run evaluates per case ([doc_equiv_b], [parsed_positions_b] in
     [Corr.agree]) imply the hypotheses of C15_routes_agree. *)
-From V Require Import Base.Util Gql.Ast Writer.Wop C15.Model C15.Spec C15.Proofs1 C15.Proofs2 C15.Proofs3 C15.Proofs5 C15.Corr.
+From V Require Import Base.Util Gql.Ast Writer.Wop C15.Model C15.Spec C15.Proofs1 C15.Proofs2 C15.Proofs3 C15.Proofs5 C15.Reify C15.CheckRespects C15.Corr.
 
 Definition routes_agree_for_corr := routes_agree.
 
@@ -164,8 +164,8 @@ Qed.
 
 (** what a [CRoutes] case on which [agree] evaluates to true establishes: the implementation's two outputs are the
     model's, and the model's are equivalent by C15_routes_agree whenever the harness claims the guard *)
-Theorem agree_routes_gives_hypotheses st meta M D J out_sdl out_json :
-  agree (CRoutes false true st meta [] M D J out_sdl out_json) = true ->
+Theorem agree_routes_gives_hypotheses st meta M D J out_sdl out_json docs :
+  agree (CRoutes false true st meta [] M D J out_sdl out_json docs) = true ->
   model_ok M = true /\ doc_equiv D (sdl_doc M) /\ parsed_positions D.
 Proof.
   cbn [agree orb]. intros H. split_andb.
@@ -222,11 +222,11 @@ Proof.
   apply (node_eqb_eq _ _ _ sroots_eqb_eq) in H4. congruence.
 Qed.
 
-Theorem certified_case st meta M D J out_sdl out_json :
-  agree (CRoutes false true st meta [] M D J out_sdl out_json) = true ->
+Theorem certified_case st meta M D J out_sdl out_json docs :
+  agree (CRoutes false true st meta [] M D J out_sdl out_json docs) = true ->
   exists Sj, out_json = Ok Sj /\ schema_equiv_on (vis_of M) Sj out_sdl.
 Proof.
-  intros H. destruct (agree_routes_gives_hypotheses _ _ _ _ _ _ _ H) as [Hok [He Hp]].
+  intros H. destruct (agree_routes_gives_hypotheses _ _ _ _ _ _ _ _ H) as [Hok [He Hp]].
   cbn [agree orb listed_in] in H. split_andb.
   match goal with E : json_eqb _ J = true |- _ => apply json_eqb_eq in E; subst J end.
   match goal with E : schema_eqb _ out_sdl = true |- _ => apply schema_eqb_eq in E; subst out_sdl end.
@@ -234,4 +234,22 @@ Proof.
   match goal with E : res_eqb schema_eqb _ out_json = true |- _ => rewrite Hj in E; destruct out_json as [so|e]; cbn [res_eqb] in E; [|discriminate];
     apply schema_eqb_eq in E; subst so end.
   exists Sj. split; [reflexivity|assumption].
+Qed.
+
+(** ... and the checker model gives the same verdict on the two schema documents of the case (the SDL document the
+    implementation was given, and the reification of the Schema the implementation built from the JSON), for every
+    operation document over the compared names — by C15_check_respects_equiv, whose computable guard [agree] evaluated. *)
+Theorem certified_check st meta M D J out_sdl out_json docs :
+  agree (CRoutes false true st meta [] M D J out_sdl out_json docs) = true ->
+  exists Sj, out_json = Ok Sj /\
+    forall doc, CheckSim2.opdoc_ok (vis_of M) doc = true ->
+      (V.C03.Model.check_operation_document D doc = [] <-> V.C03.Model.check_operation_document (doc_of_schema Sj) doc = []).
+Proof.
+  intros H. destruct (agree_routes_gives_hypotheses _ _ _ _ _ _ _ _ H) as [Hok [He Hp]].
+  cbn [agree orb listed_in] in H. split_andb.
+  match goal with E : json_eqb _ J = true |- _ => apply json_eqb_eq in E; subst J end.
+  destruct (check_respects_equiv st meta M D Hok He Hp) as [Sj [Hj Hc]]. unfold introspect in Hj.
+  match goal with E : res_eqb schema_eqb _ out_json = true |- _ => rewrite Hj in E; destruct out_json as [so|e]; cbn [res_eqb] in E; [|discriminate];
+    apply schema_eqb_eq in E; subst so end.
+  exists Sj. split; [reflexivity|]. apply Hc. assumption.
 Qed.
